@@ -120,6 +120,7 @@ type spec struct {
 	oobSeg      bool
 	elemSeg     bool
 	elemImp     bool // the element segment's item is the first IMPORTED function instead of the module's own id
+	aliasImp    bool // the mutable i32 global is imported a second time under another index
 	capMut      bool // a private global is initialised with global.get of the imported mutable i32 global
 	elemNull    bool // the element segment has a second item, ref.null, which clears the slot after the first
 	ownInit     bool // own mutable i32 global initialised from the imported immutable global
@@ -244,7 +245,7 @@ func build(s *spec, specs []*spec) []byte {
 	}
 	// the same exported global imported a second time: both import indexes name one object
 	aliasG := -1
-	if s.gFrom[gI32] >= 0 && effMut[gI32] && effType[gI32] == wasmb.I32 && !strings.HasPrefix(s.twist, "global-") {
+	if s.aliasImp && s.gFrom[gI32] >= 0 && effMut[gI32] && effType[gI32] == wasmb.I32 && !strings.HasPrefix(s.twist, "global-") {
 		m.Imports = append(m.Imports, wasmb.Import{Module: modName(s.gFrom[gI32]), Name: fmt.Sprintf("g%d", gI32), Kind: wasmb.KindGlobal, GlobalType: wasmb.I32, GlobalMut: true})
 		aliasG = int(nImpG)
 		nImpG++
@@ -598,6 +599,7 @@ func (r *runner) instantiate(twisted bool) {
 	s.elemSeg = t.Chance(1, 2)
 	s.elemNull = s.elemSeg && t.Chance(1, 3)
 	s.capMut = t.Chance(1, 2)
+	s.aliasImp = t.Chance(1, 2)
 	s.elemImp = t.Chance(1, 3)
 	s.ownInit = t.Chance(1, 2)
 	s.start = t.Weighted(6, 2, 1)
